@@ -66,6 +66,25 @@ def _tlc_dir(extra_files=()):
 TLC_STATS = re.compile(r"(\d+) states generated, (\d+) distinct states found, (\d+) states left on queue")
 
 
+def run_group(cmd, cwd=None, timeout=None, env=None):
+    """run a command in a process group of its own; on time-out kill exactly that group (the `tlc`
+    wrapper starts the JVM as a child: killing only the wrapper would leave it running, and killing
+    every TLC on the machine would hit checks that run side by side).  Returns None on time-out."""
+    import signal
+    pr = subprocess.Popen(cmd, cwd=cwd, env=env, stdout=subprocess.PIPE, stderr=subprocess.STDOUT, text=True,
+                          start_new_session=True)
+    try:
+        out, _ = pr.communicate(timeout=timeout)
+    except subprocess.TimeoutExpired:
+        try:
+            os.killpg(pr.pid, signal.SIGKILL)
+        except ProcessLookupError:
+            pass
+        pr.communicate()
+        return None
+    return subprocess.CompletedProcess(cmd, pr.returncode, out, None)
+
+
 def run_tlc_mc(module, cfg_text, workers=None, timeout=3600, extra=(), heap=None):
     """exhaustive TLC run; returns dict(ok, generated, distinct, violated, out, depth)"""
     d = _tlc_dir()
@@ -74,11 +93,8 @@ def run_tlc_mc(module, cfg_text, workers=None, timeout=3600, extra=(), heap=None
         cmd = ["tlc", "-workers", str(workers or min(NCPU, 12)), "-metadir", os.path.join(d, "m"),
                "-config", "run.cfg"] + list(extra) + [module + ".tla"]
         t0 = time.time()
-        try:
-            p = subprocess.run(cmd, cwd=d, stdout=subprocess.PIPE, stderr=subprocess.STDOUT, text=True,
-                               timeout=timeout)
-        except subprocess.TimeoutExpired:
-            subprocess.run(["pkill", "-f", "tlc2.TL[C]"])
+        p = run_group(cmd, cwd=d, timeout=timeout)
+        if p is None:
             raise HarnessError("TLC timed out after %ds on %s" % (timeout, module))
         out = p.stdout
         m = TLC_STATS.findall(out)
@@ -106,9 +122,8 @@ def run_apalache(module, inv, length=0, timeout=600):
     try:
         cmd = ["apalache-mc", "check", "--init=Init", "--next=Next", "--inv=" + inv, "--length=%d" % length,
                "--out-dir=" + os.path.join(d, "apa"), module + ".tla"]
-        try:
-            p = subprocess.run(cmd, cwd=d, stdout=subprocess.PIPE, stderr=subprocess.STDOUT, text=True, timeout=timeout)
-        except subprocess.TimeoutExpired:
+        p = run_group(cmd, cwd=d, timeout=timeout)
+        if p is None:
             raise HarnessError("Apalache timed out on %s" % module)
         if "The outcome is: NoError" in p.stdout:
             return "ok"
@@ -129,11 +144,8 @@ def run_tlc_simulate(module, cfg_text, num, depth, seed, timeout=600):
         cmd = ["tlc", "-workers", "1", "-metadir", os.path.join(d, "m"), "-config", "run.cfg",
                "-simulate", "file=%s,num=%d" % (pre, num), "-depth", str(depth), "-seed", str(seed),
                module + ".tla"]
-        try:
-            p = subprocess.run(cmd, cwd=d, stdout=subprocess.PIPE, stderr=subprocess.STDOUT, text=True,
-                               timeout=timeout)
-        except subprocess.TimeoutExpired:
-            subprocess.run(["pkill", "-f", "tlc2.TL[C]"])
+        p = run_group(cmd, cwd=d, timeout=timeout)
+        if p is None:
             raise HarnessError("TLC simulation timed out")
         files = sorted(glob.glob(pre + "*"))
         if not files:
@@ -158,11 +170,8 @@ def run_tlc_trace(module, constants, trace_file, timeout=3600, invariants=("Fini
         cfg += "INVARIANTS " + " ".join(invariants) + "\nCHECK_DEADLOCK FALSE\n"
         open(os.path.join(d, "run.cfg"), "w").write(cfg)
         cmd = ["tlc", "-workers", "1", "-metadir", os.path.join(d, "m"), "-config", "run.cfg", module + ".tla"]
-        try:
-            p = subprocess.run(cmd, cwd=d, stdout=subprocess.PIPE, stderr=subprocess.STDOUT, text=True,
-                               timeout=timeout)
-        except subprocess.TimeoutExpired:
-            subprocess.run(["pkill", "-f", "tlc2.TL[C]"])
+        p = run_group(cmd, cwd=d, timeout=timeout)
+        if p is None:
             raise HarnessError("TLC trace validation timed out")
         if not os.path.exists(resf):
             try:
